@@ -899,6 +899,206 @@ async fn apply(base: &InMemory, t: &Tamper) -> Arc<InMemory> {
     f
 }
 
+// ------------------------------------------------------------------------- warm caches, two handles
+/// Outcome counters of the cached-handle phase.
+#[derive(Default)]
+struct CachedStats {
+    setups: u64,
+    evaluations: u64,
+    outcomes: BTreeMap<String, u64>,
+    replays: u64,
+    model_rows: u64,
+}
+
+/// A handle `R` with a *warm metadata cache* reads through a tampered backend.
+///
+/// mode 0 (stale): R cached the superseded version of `key`; the key was then overwritten through
+/// another handle (the cached generation is gone), then the backend was tampered.  Every operation of
+/// R first hits NotFound on the stale generation and re-resolves the document from the backend.
+/// mode 1 (warm): R cached the current version, then the backend was tampered.
+///
+/// Operations through R: get / ranged get / get_ranges / head / list, and copy / rename as *read paths
+/// of the source*: whatever a fresh handle then reads at the target must be bytes honestly committed
+/// under the source key, or fail.
+#[allow(clippy::too_many_arguments)]
+async fn cached_phase(
+    sc: &Scenario,
+    cur: &BTreeMap<String, Vec<u8>>,
+    ts: &[Tamper],
+    key: &str,
+    thorough: bool,
+    per_stratum: u64,
+    failures: &mut Fails,
+    w: &mut impl Write,
+) -> CachedStats {
+    let mut st = CachedStats::default();
+    let cs = sc.cs;
+    let kp = Path::from(key);
+    let cur_obj = sc.objs.iter().find(|o| o.loc == key).unwrap();
+    // superseded version (document + payload) of the key, if any
+    let old: Vec<(String, Vec<u8>)> = sc.gone.iter().filter(|(p, _)| key_of_inner(p).as_deref() == Some(key)).cloned().collect();
+    let old_doc = old.iter().find(|(p, _)| p.starts_with("meta/")).and_then(|(_, b)| decode_doc(b));
+    let old_pt: Option<Vec<u8>> = old_doc.as_ref().and_then(|d| sc.sealed.iter().find(|s| s.loc == key && &s.doc == d).map(|s| s.pt.clone()));
+    let n = cur_obj.pt.len() as u64;
+    let read_ops: Vec<Op> = vec![
+        Op::Get(None),
+        Op::Get(Some(Rg::Bounded(1, n.saturating_sub(1).max(2)))),
+        Op::Get(Some(Rg::Bounded(0, cs))),
+        Op::Ranges(vec![(0, 1), (n - 1, n)]),
+        Op::Head,
+    ];
+    let versions: Vec<&Vec<u8>> = std::iter::once(&cur_obj.pt).chain(old_pt.iter()).collect();
+    let slice_of = |pt: &Vec<u8>, op: &Op| -> Option<Vec<Vec<u8>>> {
+        let len = pt.len() as u64;
+        match op {
+            Op::Get(None) => Some(vec![pt.clone()]),
+            Op::Get(Some(Rg::Bounded(s, e))) => if *s < len && s < e { Some(vec![pt[*s as usize..(*e).min(len) as usize].to_vec()]) } else { None },
+            Op::Ranges(rs) => rs.iter().map(|(s, e)| if s < e && *e <= len { Some(pt[*s as usize..*e as usize].to_vec()) } else { None }).collect(),
+            _ => None,
+        }
+    };
+    let mut strata: BTreeMap<(&'static str, &'static str, u8, bool, &'static str), u64> = BTreeMap::new();
+    let modes: Vec<u8> = if old_doc.is_some() { vec![0, 1] } else { vec![1] };
+    for t in ts.iter().filter(|t| t.keys.iter().any(|k| k == key)) {
+        // backend after the tamper
+        let mut s2 = cur.clone();
+        for (p, e) in &t.edits {
+            match e {
+                Some(b) => { s2.insert(p.clone(), b.clone()); }
+                None => { s2.remove(p); }
+            }
+        }
+        let meta_side = t.edits.iter().any(|(p, _)| p.starts_with("meta/"));
+        let src_doc = s2.get(&format!("meta/{key}")).and_then(|b| decode_doc(b));
+        let src_legacy = src_doc.as_ref().map(|d| d.auth_nonce.is_none() && d.auth_tag.is_none() && d.chunk_aad_version.is_none() && d.generation.is_none()).unwrap_or(false);
+        for &mode in &modes {
+            // payload-side tampers under a warm (current) cache add nothing over the fresh-handle phase
+            // beyond the cached document; keep a share of them
+            if mode == 1 && !meta_side && !thorough && st.setups % 3 != 0 { st.setups += 1; continue; }
+            for strict in [false, true] {
+                if strict && !meta_side && !thorough { continue; }
+                for opi in 0..(read_ops.len() + 3) {
+                    // ---- set the stage: backend in its first state, R reads the key (cache warm)
+                    let mut s1 = cur.clone();
+                    if mode == 0 {
+                        s1.retain(|p, _| key_of_inner(p).as_deref() != Some(key));
+                        for (p, b) in &old { s1.insert(p.clone(), b.clone()); }
+                    }
+                    let b = Arc::new(InMemory::new());
+                    for (p, v) in &s1 { b.put(&Path::from(p.as_str()), PutPayload::from(v.clone())).await.unwrap(); }
+                    let r = open_store(b.clone(), cs, strict);
+                    let warm = do_read(&r, &kp, &Op::Get(None)).await;
+                    if warm.is_fail() {
+                        failures.push(json!({"class": "honest-read", "what": format!("warming read of {key} failed (mode {mode})")}));
+                    }
+                    // ---- the other handle overwrote the key, then the backend was tampered
+                    for p in s1.keys() { if !s2.contains_key(p) { let _ = b.delete(&Path::from(p.as_str())).await; } }
+                    for (p, v) in &s2 { if s1.get(p) != Some(v) { b.put(&Path::from(p.as_str()), PutPayload::from(v.clone())).await.unwrap(); } }
+                    st.setups += 1;
+                    let mname = if mode == 0 { "stale-cache" } else { "warm-cache" };
+                    let mut judge = |what: String, opname: &'static str, data: Option<&Vec<Vec<u8>>>, size: Option<u64>, expect: Option<Vec<Vec<Vec<u8>>>>, failures: &mut Fails, st: &mut CachedStats| {
+                        // data: bytes returned (None for metadata reads); size: reported logical size
+                        let mut class = "ok-original";
+                        if let (Some(d), Some(exp)) = (data, &expect) {
+                            match exp.iter().position(|x| x == d) {
+                                Some(0) => {}
+                                Some(_) => { class = "ok-older-version"; st.replays += 1; }
+                                None => class = "DIFFERENT",
+                            }
+                        }
+                        if let Some(sz) = size {
+                            match versions.iter().position(|v| v.len() as u64 == sz) {
+                                Some(0) => {}
+                                Some(_) => { if class == "ok-original" { class = "ok-older-version"; st.replays += 1; } }
+                                None => class = "DIFFERENT",
+                            }
+                        }
+                        *st.outcomes.entry(format!("{mname}:{}:{opname}:{class}", t.class)).or_default() += 1;
+                        if class == "DIFFERENT" {
+                            let nonempty = data.map(|d| d.iter().any(|x| !x.is_empty())).unwrap_or(false);
+                            let fclass = if !strict && src_legacy && !nonempty { "compat-legacy-downgrade" } else { "wrong-bytes" };
+                            failures.push(json!({
+                                "class": fclass, "what": format!("{mname} handle, {} ; {what} (strict={strict}) returned something other than bytes committed under the source key or an error", t.desc),
+                                "tamper_class": t.class, "chunk_size": cs, "key": key, "mode": mname, "strict": strict,
+                                "got_bytes": data.map(|d| d.iter().map(|x| hex(x)).collect::<Vec<_>>()), "got_size": size,
+                                "committed_versions": versions.iter().map(|v| hex(v)).collect::<Vec<_>>(),
+                                "edits": t.edits.iter().map(|(p, b)| json!({"path": p, "bytes": b.as_ref().map(|b| hex(b))})).collect::<Vec<_>>(),
+                            }));
+                        }
+                        class
+                    };
+                    if opi < read_ops.len() {
+                        let op = &read_ops[opi];
+                        let got = do_read(&r, &kp, op).await;
+                        st.evaluations += 1;
+                        match &got {
+                            Out::Err(_) | Out::Panic(_) => { *st.outcomes.entry(format!("{mname}:{}:read:err", t.class)).or_default() += 1; }
+                            Out::Bytes { data, size, .. } => {
+                                let exp: Vec<Vec<Vec<u8>>> = versions.iter().filter_map(|v| slice_of(v, op)).collect();
+                                let sz = if matches!(op, Op::Get(_)) { Some(*size) } else { None };
+                                judge(format!("read {} of {key}", op.name()), "read", Some(data), sz, Some(exp), failures, &mut st);
+                            }
+                            Out::Meta { size, .. } => { judge(format!("head of {key}"), "head", None, Some(*size), None, failures, &mut st); }
+                        }
+                    } else if opi == read_ops.len() {
+                        // listing through the cached handle: the entry of the key
+                        if let Ok(m) = do_list(&r, 0).await {
+                            if let Some((sz, _, _)) = m.get(key) { judge(format!("list entry of {key}"), "list", None, Some(*sz), None, failures, &mut st); }
+                        }
+                        st.evaluations += 1;
+                    } else {
+                        // copy / rename through the cached handle, then read the target through a fresh handle
+                        let rename = opi == read_ops.len() + 2;
+                        let opname: &'static str = if rename { "rename" } else { "copy" };
+                        let tgt = Path::from("zz/target");
+                        let res = match AssertUnwindSafe(async { if rename { r.rename(&kp, &tgt).await } else { r.copy(&kp, &tgt).await } }).catch_unwind().await {
+                            Ok(x) => x.map_err(|e| err_kind(&e)),
+                            Err(_) => Err("panic".into()),
+                        };
+                        st.evaluations += 1;
+                        let f = open_store(b.clone(), cs, strict);
+                        let got = do_read(&f, &tgt, &Op::Get(None)).await;
+                        let hd = do_read(&f, &tgt, &Op::Head).await;
+                        let via_r = do_read(&r, &tgt, &Op::Get(None)).await;
+                        let ls = do_list(&f, 0).await;
+                        st.evaluations += 4;
+                        let mut class = "err";
+                        for (g, how) in [(&got, "get of the target through a fresh handle"), (&via_r, "get of the target through the same handle")] {
+                            if let Out::Bytes { data, size, .. } = g {
+                                class = judge(format!("{opname} {key} -> zz/target, then {how}"), opname, Some(data), Some(*size), Some(versions.iter().map(|v| vec![(*v).clone()]).collect()), failures, &mut st);
+                            }
+                        }
+                        if let Out::Meta { size, .. } = &hd { judge(format!("{opname} {key} -> zz/target, then head of the target"), opname, None, Some(*size), None, failures, &mut st); }
+                        if let Ok(m) = &ls { if let Some((sz, _, _)) = m.get("zz/target") { judge(format!("{opname} {key} -> zz/target, then list entry of the target"), opname, None, Some(*sz), None, failures, &mut st); } }
+                        if res.is_err() && !got.is_fail() {
+                            failures.push(json!({"class": "wrong-bytes", "what": format!("{mname} handle, {} ; {opname} failed but the target is readable", t.desc)}));
+                        }
+                        if got.is_fail() { *st.outcomes.entry(format!("{mname}:{}:{opname}:err", t.class)).or_default() += 1; }
+                        // model row: (cached document, backend document) -> what the target reads as
+                        let seen = strata.entry((t.class, class, mode, strict, opname)).or_insert(0);
+                        *seen += 1;
+                        if *seen <= per_stratum || class == "DIFFERENT" {
+                            let tdoc = |d: Option<&MetaDoc>, present: bool| -> Value {
+                                match d {
+                                    Some(doc) => doc_term(&sc.sealed, key, doc, s2.get(&payload_path_of(key, doc))),
+                                    None => if present { ctor("TUndecodable", vec![]) } else { ctor("TAbsent", vec![]) },
+                                }
+                            };
+                            let cached = if mode == 0 { tdoc(old_doc.as_ref(), true) } else { tdoc(cur.get(&format!("meta/{key}")).and_then(|b| decode_doc(b)).as_ref(), true) };
+                            let backend = tdoc(src_doc.as_ref(), s2.contains_key(&format!("meta/{key}")));
+                            let obs = match &got { Out::Bytes { data, .. } => ctor("OBytes", vec![Value::Array(data.iter().map(|d| hexv(d)).collect()), json!(0), ctor("ENone", vec![]), json!(0)]), _ => ctor("OErr", vec![]) };
+                            let case = tup(vec![json!(strict), json!({"raw": format!("honest_{}", sc.id)}), json!(cs), hexv(key.as_bytes()), cached, backend]);
+                            writeln!(w, "{}", json!({"kind": "copy", "case": case, "obs": obs, "tamper": t.desc, "tclass": t.class, "oclass": class, "mode": mname, "op": opname})).unwrap();
+                            st.model_rows += 1;
+                        }
+                    }
+                }
+            }
+        }
+    }
+    st
+}
+
 fn main() {
     let args: Vec<String> = std::env::args().collect();
     let out_path = arg_value(&args, "--out").expect("--out");
@@ -927,6 +1127,8 @@ async fn run(out_path: String, thorough: bool, model_every: u64, chunk_sizes: Ve
     let mut model_cases = 0u64;
     let mut limits: Vec<Value> = Vec::new();
     let mut replays = 0u64;
+    let mut cached_setups = 0u64;
+    let mut cached_outcomes: BTreeMap<String, u64> = BTreeMap::new();
     let mut strata: BTreeMap<(&'static str, &'static str, &'static str, bool), u64> = BTreeMap::new();
     let per_stratum: u64 = arg_value(&std::env::args().collect::<Vec<_>>(), "--per-stratum").and_then(|s| s.parse().ok()).unwrap_or(if thorough { 24 } else { 4 });
     let c = cipher();
@@ -1226,6 +1428,18 @@ async fn run(out_path: String, thorough: bool, model_every: u64, chunk_sizes: Ve
             }
         }
 
+        // ---------------- handles with warm / stale metadata caches, copy and rename as read paths
+        if sid == 0 || thorough {
+            for key in ["ow", "k6"] {
+                let cst = cached_phase(&sc, &cur, &ts, key, thorough, per_stratum, &mut failures, &mut w).await;
+                evaluations += cst.evaluations;
+                cached_setups += cst.setups;
+                replays += cst.replays;
+                model_cases += cst.model_rows;
+                for (k, v) in cst.outcomes { *cached_outcomes.entry(k).or_default() += v; }
+            }
+        }
+
         // ---------------- documented limits, measured (not violations): compat-mode forged legacy
         // document of size 0 with an object placed at data/<key>; complete replay of an older version
         if sid == 0 {
@@ -1263,7 +1477,7 @@ async fn run(out_path: String, thorough: bool, model_every: u64, chunk_sizes: Ve
         json!({"kind": "summary", "evaluations": evaluations, "tampers": tamper_count, "tamper_classes": by_class, "outcomes": outcome_counts,
                "panics": panics, "panic_samples": panic_samples, "object_sizes": sizes.iter().collect::<Vec<_>>(), "chunk_sizes": chunk_sizes,
                "plaintext_windows": plaintext_windows, "distinct_nonces": nonce_count, "seal_checks": seal_checks, "model_cases": model_cases,
-               "limits": limits, "older_version_replays_in_listing": replays, "oracle_failures": oracle_failures, "failure_counts": failures.counts, "failures": failures.list})
+               "limits": limits, "older_version_replays_in_listing": replays, "cached_handle_setups": cached_setups, "cached_handle_outcomes": cached_outcomes, "oracle_failures": oracle_failures, "failure_counts": failures.counts, "failures": failures.list})
     )
     .unwrap();
     w.flush().unwrap();
